@@ -92,7 +92,7 @@ theorem C15_clock_invariant (glue : TextGlue) (hU : UserOK U Iυ) (bs : List (HB
     (out : List (Out (COut ω))) (hI : HInv lower ettl Iυ c s) (hm : Mono c bs) (hs : ∀ b ∈ bs, HSafe lower ettl Iυ b)
     (h : hrun lower possible ettl attrib orc sz U upd s bs = .ok (s', out)) :
     ∀ r ∈ s'.down.cache.allRecs, r.created ≤ lastTime c bs :=
-  (hrun_inv lower possible ettl attrib orc sz U upd Iυ glue hU bs c s s' out hI hm hs h).clock.allRecs
+  (hrun_inv lower possible ettl sz U upd Iυ glue hU (down_closed lower possible ettl attrib orc U upd Iυ glue hU) bs c s s' out hI hm hs h).clock.allRecs
 
 /-- **Survival, every history, every block kind** (`_partial`: `UserOK`, `ApiSafe` of the API arguments, `Mono`, `TextGlue`).  From
 any state satisfying the invariant — e.g. the initial one — every finite interleaving of
@@ -111,7 +111,7 @@ theorem C15_history_closed_partial (glue : TextGlue) (hU : UserOK U Iυ) (bs : L
     (∃ s' out, hrun lower possible ettl attrib orc sz U upd s bs = .ok (s', out) ∧ HInv lower ettl Iυ (lastTime c bs) s') ∨
     (∃ pre addr post s1 o1, bs = pre ++ HBlock.tcFire addr :: post ∧
       hrun lower possible ettl attrib orc sz U upd s pre = .ok (s1, o1) ∧ alGet addr s1.timers = none) :=
-  hrun_ok lower possible ettl attrib orc sz U upd Iυ glue hU bs c s hI hm hs
+  hrun_ok lower possible ettl sz U upd Iυ glue hU (down_closed lower possible ettl attrib orc U upd Iυ glue hU) bs c s hI hm hs
 
 /-- the initial state of a started instance — empty cache, registry, queues, histories, no browsers, lookups, listeners or futures —
 satisfies the invariant at every clock reading -/
@@ -235,8 +235,9 @@ theorem C15_populated_instance (glue : TextGlue) (henum : NameTextSafe RespSpec.
     obtain ⟨s, out⟩ := v
     rw [hr] at hev
     simp only [Prod.mk.injEq] at hev
-    have hI := hrun_inv id possibleTypes 4500 (fun _ _ => true) (fun _ t => (20, 20, t)) (fun _ => 0) exUser (fun _ _ _ => false)
-      (fun _ : Nat => True) glue ⟨fun u _ pairs _ _ => ⟨u + 1, _, rfl, trivial⟩, fun u _ _ => ⟨u, _, rfl, trivial⟩⟩
+    have hUok : UserOK exUser (fun _ : Nat => True) := ⟨fun u _ _ _ _ => ⟨u + 1, _, rfl, trivial⟩, fun u _ _ => ⟨u, _, rfl, trivial⟩⟩
+    have hI := hrun_inv id possibleTypes 4500 (fun _ => 0) exUser (fun _ _ _ => false) (fun _ : Nat => True) glue hUok
+      (down_closed id possibleTypes 4500 (fun _ _ => true) (fun _ t => (20, 20, t)) exUser (fun _ _ _ => false) (fun _ : Nat => True) glue hUok)
       exPopulate 0 (State.init exEmpty) s out (C15_closed_init id 4500 (fun _ : Nat => True) 0) hmono hsafe hr
     exact ⟨s, out, rfl, hI, hev.1, hev.2.1, hev.2.2.1, hev.2.2.2.1, hev.2.2.2.2.1, hev.2.2.2.2.2⟩
 
@@ -312,7 +313,7 @@ theorem C15_announcement_reaches_browser_closed_partial (glue : TextGlue) (hU : 
     {b : Browser} (hb : b ∈ s1.down.browsers) (ht : t ∈ b.types) (hposs : (possible w.name).contains t = true) :
     ∃ s' out i, recv (down lower possible ettl attrib orc U upd) s1 data addr port now draw = .ok (s', out, .response) ∧
       Out.down (COut.callback i ⟨.added, t, alias⟩) ∈ out := by
-  have hI1 := hrun_inv lower possible ettl attrib orc sz U upd Iυ glue hU bs c s0 s1 o1 hI hm hs hrun'
+  have hI1 := hrun_inv lower possible ettl sz U upd Iυ glue hU (down_closed lower possible ettl attrib orc U upd Iυ glue hU) bs c s0 s1 o1 hI hm hs hrun'
   obtain ⟨p', hp', hk⟩ := parse_pkt data now hsize
   rw [hp] at hp'
   cases hp'
